@@ -384,6 +384,8 @@ class Repo:
                 tgt = local[expr.id]
                 if tgt is expr:
                     return None
+                if isinstance(tgt, tuple):
+                    return tgt       # already resolved (local import)
                 return self.resolve_expr(module, tgt, None, _seen)
             return self.resolve_symbol(module.name, expr.id, _seen)
         if isinstance(expr, ast.Attribute):
@@ -410,6 +412,37 @@ class Repo:
                 return ('valueattr', base, expr.attr)
             return None
         return None
+
+    def local_scope(self, finfo):
+        """Aliases visible only inside a function: `x = a.b` assignments of
+        name chains and function-local imports. Maps name -> AST expression or
+        an already resolved tuple."""
+        out = {}
+        if finfo is None:
+            return out
+        m = finfo.module
+        for n in walk_no_nested(finfo.node):
+            if isinstance(n, ast.Assign) and len(n.targets) == 1 and \
+                    isinstance(n.targets[0], ast.Name) and isinstance(
+                        n.value, (ast.Name, ast.Attribute)):
+                out[n.targets[0].id] = n.value
+            elif isinstance(n, ast.ImportFrom):
+                mod = m._abs_from(n)
+                for a in n.names:
+                    if a.name == '*':
+                        continue
+                    sub = mod + '.' + a.name
+                    if sub in self.modules:
+                        r = ('module', self.modules[sub])
+                    else:
+                        r = self.resolve_symbol(mod, a.name)
+                    if r is not None:
+                        out[a.asname or a.name] = r
+            elif isinstance(n, ast.Import):
+                for a in n.names:
+                    if a.asname and a.name in self.modules:
+                        out[a.asname] = ('module', self.modules[a.name])
+        return out
 
     # -- helpers ----------------------------------------------------------
     def all_functions(self):
